@@ -47,6 +47,10 @@
 (*   strfn       C14  length upper lower startsWith endsWith contains      *)
 (*                    indexOf substring toChars replace on a logged String *)
 (*                    input with logged arguments is what FPStrings says   *)
+(*   convfn      C13  toT() / convertsToT() of a logged System value is    *)
+(*                    what FPConvert's conversion table says (Quantity,    *)
+(*                    ambiguous date texts and the recorded toInteger      *)
+(*                    finding are left to the dedicated check)             *)
 (***************************************************************************)
 EXTENDS Integers, Sequences, FiniteSets, FPLogic, Json, TLC, Params
 
@@ -71,6 +75,7 @@ StrictNodes == OperandNodes \cup {"Boolean", "Sequence", "Index", "Concat"}   \*
 Cmp == INSTANCE FPCompare
 Ar  == INSTANCE FPArith
 St  == INSTANCE FPStrings
+Cv  == INSTANCE FPConvert
 
 Frame(e) == [k |-> e.k, p |-> e.p, in |-> e.in, inh |-> e.inh, ic |-> e.ic, inv |-> e.inv, kids |-> <<>>]
 Kid(f, e) == [k |-> f.k, in |-> f.in, ok |-> e.ok, out |-> e.out, cls |-> e.cls, hi |-> e.hi, iv |-> e.iv, ov |-> e.outv]
@@ -204,6 +209,31 @@ StrLaw(f, e) ==
                     bad(StrOut(e) /\ e.outv[1].cp = St!StrReplace(s, f.kids[1].ov[1].cp, f.kids[2].ov[1].cp))
                [] OTHER -> {}
 
+ConvTargetOf(p) ==
+  CASE p \in {"ToBoolean", "ConvertsToBoolean"} -> "Boolean"   [] p \in {"ToInteger", "ConvertsToInteger"} -> "Integer"
+    [] p \in {"ToDecimal", "ConvertsToDecimal"} -> "Decimal"   [] p \in {"ToString", "ConvertsToString"} -> "String"
+    [] p \in {"ToDate", "ConvertsToDate"} -> "Date"            [] p \in {"ToDateTime", "ConvertsToDateTime"} -> "DateTime"
+    [] p \in {"ToTime", "ConvertsToTime"} -> "Time"            [] OTHER -> ""
+IsConverts(p) == p \in {"ConvertsToBoolean", "ConvertsToInteger", "ConvertsToDecimal", "ConvertsToString", "ConvertsToDate",
+                        "ConvertsToDateTime", "ConvertsToTime"}
+SameVal(got, want) ==
+  got.t = want.t /\ CASE want.t = "b" -> got.b = want.b
+                       [] want.t = "i" -> got.i = want.i
+                       [] want.t = "s" -> got.cp = want.cp
+                       [] want.t = "d" -> Cmp!DEq(Cmp!DOfItem(got), Cmp!DOfItem(want))
+                       [] OTHER -> TRUE          \* date/time results: the type (their components are judged by C13's own check)
+ConvLaw(f, e) ==
+  LET T == ConvTargetOf(f.p)
+      bad(c) == IF c THEN {} ELSE {<<"convfn", "C13">>}
+  IN IF T = "" \/ Len(f.kids) # 0 \/ ~(Len(f.in) = 1 /\ Valued(f.inv, f.in)) THEN {}
+     ELSE LET v == f.inv[1] IN
+          IF v.t \notin (Cv!SystemTags \ {"q"}) \/ Cv!Amb(T, v) THEN {}
+          ELSE IF IsConverts(f.p) THEN bad(e.ok /\ e.cls = (IF Cv!Convertible(T, v) THEN "T" ELSE "F"))
+          ELSE IF T = "String" THEN (IF v.t \in {"s", "i", "b"} THEN bad(StrOut(e) /\ e.outv[1].cp = Cv!ToStr(v)) ELSE {})
+          ELSE LET want == Cv!To(T, v) IN
+               IF want = <<>> THEN (IF T = "Integer" /\ v.t = "s" THEN {} ELSE bad(e.ok /\ e.out = <<>>))
+               ELSE bad(e.ok /\ Len(e.out) = 1 /\ Valued(e.outv, e.out) /\ SameVal(e.outv[1], want[1]))
+
 CriteriaFns == {"Where", "All", "Exists", "Select"}
 EndLaws(f, e) ==
   LET n == Len(f.in)
@@ -240,7 +270,7 @@ EndLaws(f, e) ==
   \cup (IF f.k = "Index" /\ nk = 1 /\ f.kids[1].ok /\ f.kids[1].hi
            /\ ~(e.ok /\ e.out = (IF f.kids[1].iv >= 0 /\ f.kids[1].iv < n THEN <<f.in[f.kids[1].iv + 1]>> ELSE <<>>))
         THEN {<<"subset", "C10">>} ELSE {})
-  \cup (IF f.k = "Function" THEN FnLaws(f, e) \cup StrLaw(f, e) ELSE {})
+  \cup (IF f.k = "Function" THEN FnLaws(f, e) \cup StrLaw(f, e) \cup ConvLaw(f, e) ELSE {})
   \cup (IF f.k = "Equality" THEN EqLaw(f, e) ELSE {})
   \cup (IF f.k = "Comparison" THEN CmpLaw(f, e) ELSE {})
   \cup (IF f.k = "Arithmetic" THEN ArithLaw(f, e) ELSE {})
